@@ -54,7 +54,7 @@ FILES = [
 ALL = [c for c in os.environ.get("TWIN_CHECKS", "").split(",") if c] or [f"C{i:02d}" for i in range(1, 21)]
 
 
-from sa.variants import locals_of, rename, structural_twins  # noqa: E402
+from sa.variants import locals_of, param_twins, rename, structural_twins  # noqa: E402
 
 
 def main():
@@ -63,6 +63,11 @@ def main():
     mode = os.environ.get("TWIN_MODE", "rename")
     for rel in FILES:
         if filt and not any(f in rel for f in filt):
+            continue
+        if mode == "params":
+            for desc, ov in param_twins(REPO, rel):
+                for pid in ALL:
+                    jobs.append((rel, desc.split(":", 1)[-1], 0, mode, pid, (f"rules.{pid.lower()}", REPO, ov, "quick")))
             continue
         if mode != "rename":
             for desc, ov in structural_twins(REPO, rel, tuple(mode.split(","))):
